@@ -168,6 +168,12 @@ class Ctx:
                     json.dump(v, fh, indent=1, default=str)
                 print("VIOLATION property=%s replay=%s" % (self.pid, path))
                 print("  detail: " + _short(v["detail"], 600))
+            classes = {}
+            for v in self.violations:
+                k = json.dumps(v["signature"], sort_keys=True, default=str)
+                classes[k] = classes.get(k, 0) + 1
+            for k, n in sorted(classes.items()):
+                print("  class x%d: %s" % (n, k))
             print("%s: %d violation(s) in %.1fs" % (self.pid, len(self.violations), wall))
             return 1
         print("%s: held on everything explored (%d evaluations, %d distinct non-trivial, %d TLC states, %d traces) in %.1fs"
